@@ -259,6 +259,11 @@ type Tokenizer struct {
 	posCacheIndex int
 	posCacheLine  int // index into lineStarts
 	posCacheCol   int
+
+	// Offset just past the last token or comment read: the bytes from there to the
+	// current position are blanks, which makes "is there code before this comment on
+	// its line" a constant-time question.
+	solidEnd int
 }
 
 // New creates a new Tokenizer with default configuration and keyword support.
@@ -483,6 +488,7 @@ func (t *Tokenizer) Tokenize(input []byte) ([]models.TokenWithSpan, error) {
 				Start: t.toSQLPosition(startPos),
 				End:   t.getCurrentPosition(),
 			}
+			t.solidEnd = t.pos.Index
 			if t.logger != nil && t.logger.Enabled(context.Background(), slog.LevelDebug) {
 				t.logger.LogAttrs(context.Background(), slog.LevelDebug, "token",
 					slog.String("type", fmt.Sprintf("%T", token)),
@@ -623,6 +629,7 @@ func (t *Tokenizer) TokenizeContext(ctx context.Context, input []byte) ([]models
 				Start: t.toSQLPosition(startPos),
 				End:   t.getCurrentPosition(),
 			}
+			t.solidEnd = t.pos.Index
 			if t.logger != nil && t.logger.Enabled(context.Background(), slog.LevelDebug) {
 				t.logger.LogAttrs(context.Background(), slog.LevelDebug, "token",
 					slog.String("type", fmt.Sprintf("%T", token)),
@@ -668,6 +675,8 @@ func (t *Tokenizer) skipTrivia() {
 		}
 		commentStartIdx := t.pos.Index
 		commentStartPos := t.toSQLPosition(t.pos)
+		// the comment's line starts at lineStarts[Line-1]
+		inline := t.solidEnd > t.lineStarts[commentStartPos.Line-1]
 		t.pos.AdvanceRune(rune(c0), 1)
 		t.pos.AdvanceRune(rune(c1), 1)
 		style := models.LineComment
@@ -701,8 +710,9 @@ func (t *Tokenizer) skipTrivia() {
 			Style:  style,
 			Start:  commentStartPos,
 			End:    t.toSQLPosition(t.pos),
-			Inline: t.hasCodeBeforeOnLine(commentStartIdx),
+			Inline: inline,
 		})
+		t.solidEnd = textEnd
 	}
 }
 
@@ -1696,24 +1706,4 @@ func (t *Tokenizer) getLocation(pos int) models.Location {
 
 func isIdentifierChar(r rune) bool {
 	return isUnicodeIdentifierPart(r)
-}
-
-// hasCodeBeforeOnLine checks if there are non-whitespace characters on the same
-// line before the given byte index. Used to determine if a comment is inline.
-func (t *Tokenizer) hasCodeBeforeOnLine(idx int) bool {
-	// Find the start of the line containing idx
-	lineStart := 0
-	for i := len(t.lineStarts) - 1; i >= 0; i-- {
-		if t.lineStarts[i] <= idx {
-			lineStart = t.lineStarts[i]
-			break
-		}
-	}
-	// Check for non-whitespace between lineStart and idx
-	for i := lineStart; i < idx && i < len(t.input); i++ {
-		if t.input[i] != ' ' && t.input[i] != '\t' && t.input[i] != '\r' {
-			return true
-		}
-	}
-	return false
 }
